@@ -85,6 +85,44 @@ def repo_patterns():
     return sorted(pats)
 
 
+def primary_forms(tier='quick'):
+    """systematic coverage of character decoding: every single-character form and set/range forms around the
+    interesting byte values (control, printable limits, specials, the signed/unsigned boundary 0x7f/0x80, 0xff)"""
+    out = []
+    specials = set('*+?|(){}[]\\.^-')
+    for c in range(0x20, 0x7f):
+        ch = chr(c)
+        if ch not in specials and not ch.isdigit():
+            out.append(ch)
+        out.append('\\' + ch)
+        out.append('[' + ('\\' + ch if ch in ']\\' else ch) + ']')
+        if ch not in '^]\\':
+            out.append('[^' + ch + ']')
+    for v in range(256):
+        out.append('\\x%02x' % v)
+        out.append('\\x%02X' % v)
+        out.append('[\\x%02x]' % v)
+        if v < 16:
+            out.append('\\x%x' % v)
+            out.append('\\x%xg' % v)
+    edge = [0x00, 0x01, 0x1f, 0x20, 0x2d, 0x2f, 0x30, 0x39, 0x41, 0x5a, 0x5b, 0x5d, 0x61, 0x7a, 0x7e, 0x7f, 0x80, 0x81, 0xc3, 0xfe, 0xff]
+    for a in edge:
+        for b in edge:
+            if a <= b:
+                out.append('[\\x%02x-\\x%02x]' % (a, b))
+                if tier != 'quick' or (a + b) % 3 == 0:
+                    out.append('[^\\x%02x-\\x%02x]' % (a, b))
+                    out.append('[a\\x%02x-\\x%02xz]' % (a, b))
+    for a in 'a0A !~':
+        for b in 'z9Z~':
+            if a <= b:
+                out.append('[%s-%s]' % (a, b))
+                out.append('[%s-\\xff]' % a)
+                out.append('[\\x00-%s]' % b)
+    out += ['[a-zA-Z_0-9]', '[^a-zA-Z_0-9]', '[--Z-]', '[a-c-e]', '[]a]'.replace(']a', '\\]a'), '[a\\]]', '[[]', '[^^]', '[a^]', '[.]', '[*+?]', '.']
+    return [x.replace('\\\\', '\\') for x in out]
+
+
 def build_rx():
     return vlib.build_binary('rx', 'rx.cpp')
 
